@@ -73,6 +73,10 @@ type FileWrite struct {
 	Name    string `json:"name"`
 	Content string `json:"content"`
 	Create  bool   `json:"create,omitempty"` // create/truncate instead of pwrite
+	// Rename: write a temporary file next to it and rename it over the name (atomic replace, new inode);
+	// KeepOld additionally keeps the old inode alive through a hard link, as a backup would
+	Rename  bool `json:"rename,omitempty"`
+	KeepOld bool `json:"keep_old,omitempty"`
 	// Repeat/IntervalUs (bursts only): write the content Repeat more times, IntervalUs apart, while
 	// the burst is in flight - a refresh storm
 	Repeat     int `json:"repeat,omitempty"`
@@ -104,6 +108,7 @@ type ChainJob struct {
 	Sniff   []string          `json:"sniff,omitempty"` // interfaces to sniff for link-level replies
 	FrameWaitUs int           `json:"frame_wait_us,omitempty"` // how long to wait for a frame when nothing was sent by UDP
 	LogHook bool              `json:"-"`
+	LogLevel string           `json:"log_level,omitempty"` // "" = info
 }
 
 type CapRes struct {
@@ -201,6 +206,9 @@ func chainChild() {
 	if err := json.Unmarshal(raw, &job); err != nil {
 		fmt.Fprintln(os.Stderr, "chain child: bad job:", err)
 		os.Exit(3)
+	}
+	if job.LogLevel != "" {
+		setLogLevelName(job.LogLevel)
 	}
 	out := bufio.NewWriter(os.Stdout)
 	var emitMu sync.Mutex
@@ -448,7 +456,18 @@ func chainChild() {
 		rr := ReqRes{I: i}
 		if rq.Write != nil {
 			path := filepath.Join(dir, rq.Write.Name)
-			if rq.Write.Create {
+			if rq.Write.Rename {
+				if rq.Write.KeepOld {
+					os.Remove(path + ".bak")
+					os.Link(path, path+".bak")
+				}
+				tmp := path + ".tmp"
+				if err := os.WriteFile(tmp, []byte(rq.Write.Content), 0o644); err != nil {
+					rr.WriteErr = err.Error()
+				} else if err := os.Rename(tmp, path); err != nil {
+					rr.WriteErr = err.Error()
+				}
+			} else if rq.Write.Create {
 				if err := os.WriteFile(path, []byte(rq.Write.Content), 0o644); err != nil {
 					rr.WriteErr = err.Error()
 				}
